@@ -126,7 +126,7 @@ func Gen(r *rand.Rand, c GenCfg) []string {
 		case x < 72: // batch activity
 			b := r.Intn(2)
 			bt := strconv.Itoa(b)
-			if !bs[b].bound || r.Intn(12) == 0 {
+			if !bs[b].bound || r.Intn(25) == 0 {
 				emit("bnew", bt, handle())
 				bs[b] = bstate{bound: true}
 				break
@@ -140,15 +140,15 @@ func Gen(r *rand.Rand, c GenCfg) []string {
 				}
 				break
 			}
-			switch y := r.Intn(10); {
-			case y < 4:
+			switch y := r.Intn(20); {
+			case y < 10:
 				emit("bput", bt, key(), val())
-			case y < 6:
+			case y < 14:
 				emit("bdel", bt, key())
-			case y < 8:
+			case y < 17:
 				emit("bwrite", bt)
 				bs[b].written = true
-			case y < 9:
+			case y < 19:
 				emit("brep", bt)
 			default:
 				emit("breset", bt)
